@@ -62,6 +62,7 @@ Definition sort_tab {A} (l : list (Z * A)) : list (Z * A) := fold_right insert_s
 Definition node_eqb (a b : tnode) : bool :=
   bytes_eqb (n_prefix a) (n_prefix b) && (n_max_early a =? n_max_early b)
   && list_eqb Z.eqb (n_flags a) (n_flags b) && list_eqb Z.eqb (n_handlers a) (n_handlers b)
+  && list_eqb Z.eqb (n_data_ids a) (n_data_ids b)
   && Bool.eqb (n_tunnel_ep a) (n_tunnel_ep b)
   && tab_eqb circuit_eqb (sort_tab (n_circuits a)) (sort_tab (n_circuits b))
   && tab_eqb relay_eqb (sort_tab (n_relays a)) (sort_tab (n_relays b))
@@ -97,7 +98,7 @@ Definition stream (l : list Z) : nat -> Z := fun i => nth i l 0.
 
 Definition run_event (nd : tnode) (ev : event) (rnd : bytes) (ns : list Z) : outcome :=
   match ev with
-  | EvPacket src data => on_packet tenc tdec nd src data (fun _ => rnd) (stream ns)
+  | EvPacket src data => on_packet_rec tenc tdec nd src data (fun _ => rnd) (stream ns)
   | EvSendData target cid dest org data => send_data tenc nd target cid dest org data (stream ns)
   | EvTunnelData cid source data =>
       match assoc cid (n_exits nd) with
